@@ -3,6 +3,7 @@ CONSTANTS
   Kind = "mc"
   NR = 1
   Binds = {"any"}
+  WBinds = {"any0"}
   NG = 2
   Sources = {"real", "phantom"}
   NS = 1
